@@ -484,7 +484,130 @@ def c05_chain(idx: int) -> bool:
     return run(_chain_point, idx)
 
 
-DIMS = {"c05_location": location_dims, "c05_chain": chain_dims}
+# ---- a failed attempt in front of the redirect ----------------------------------------------------------------------------
+
+class FaultChainPeer(N.BaseHandler):
+    """The first attempt fails (refused connect / reset after the request was sent / 503), every later request is answered
+    with a redirect to the next origin — an endless chain.  Logs every request target per origin."""
+
+    def __init__(self, fault, status):
+        self.fault = fault
+        self.status = status
+        self.state = {}
+        self.count = 0            # requests answered with a redirect
+        self.attempts = 0         # requests / connects seen at all
+        self.targets = []
+
+    def on_connect(self, net, sock):
+        if self.fault == "connect" and self.attempts == 0:
+            self.attempts += 1
+            raise ConnectionRefusedError(111, "refused")
+
+    def on_send(self, sock, data):
+        st = self.state.setdefault(sock.id, {"got": b"", "answered": 0})
+        st["got"] += data
+
+    def on_read(self, sock):
+        st = self.state.setdefault(sock.id, {"got": b"", "answered": 0})
+        reqs, rest = N.parse_requests(st["got"])
+        if len(reqs) > st["answered"]:
+            r = reqs[st["answered"]]
+            st["answered"] += 1
+            self.attempts += 1
+            self.targets.append((sock.address[0], r["target"].decode()))
+            if self.attempts == 1 and self.fault == "reset":
+                raise ConnectionResetError(104, "reset")
+            if self.attempts == 1 and self.fault == "503":
+                return N.response_bytes(503, "Busy", body=b"")
+            self.count += 1
+            nxt = ["a", "b"][self.count % 2]
+            return N.response_bytes(self.status, "X", headers=[("Location", "http://%s/n%d" % (nxt, self.count))], body=b"")
+        return b""
+
+
+FAULTS = ["connect", "reset", "503"]
+
+
+def _fault_body(front, fault_i, redirect_flag, red, ror, status_i, total):
+    """A retry after a failed attempt is still the SAME request: the redirect flag and the redirect budget apply to it unchanged
+    (only the total / error budgets are one lower)."""
+    status = STATUSES[status_i]
+    fault = FAULTS[fault_i]
+    peer = FaultChainPeer(fault, status)
+    N.install(peer)
+    E.install_clock()
+    try:
+        pol = Retry(total=total, redirect=red, raise_on_redirect=ror, status_forcelist=[503], backoff_factor=0)
+        exc = None
+        resp = None
+        try:
+            if front == 2:
+                fe = HTTPConnectionPool("a", 80)
+                resp = fe.urlopen("GET", "/n0", redirect=redirect_flag, assert_same_host=False, retries=pol)
+            else:
+                fe = PoolManager() if front == 0 else ProxyManager("http://proxy:3128")
+                resp = fe.urlopen("GET", "http://a/n0", redirect=redirect_flag, retries=pol)
+        except HTTPError as e:
+            exc = e
+        where = "front %d, first attempt %s, redirect=%s, Retry(total=%d, redirect=%d, raise_on_redirect=%s), %d" % (
+            front, fault, redirect_flag, total, red, ror, status)
+        followed = max(peer.count - 1, 0)
+        if total < 1:
+            # no budget for the retry: the failure itself surfaces, nothing else happens
+            if peer.count:
+                return _fail("%s: request repeated without budget" % where)
+            return True
+        if not redirect_flag:
+            if followed:
+                return _fail("%s: redirect=False but %d redirect(s) were followed: %r" % (where, followed, peer.targets))
+            if exc is not None or resp is None or resp.status != status:
+                return _fail("%s: expected the %d response itself, got %r / %r" % (where, status, resp, exc))
+            mark("retry then 3xx returned")
+            return True
+        if front == 2:
+            # a bare pool stays on its host: the chain alternates a -> b, so following stops at HostChanged unless disabled; here
+            # assert_same_host=False lets it follow on the same connection pool (documented behaviour of that switch)
+            pass
+        # The policy in effect allows min(redirect, total) redirects.  The failed first attempt has used one unit of `total`:
+        # a bare pool deducts it (min(redirect, total - 1) redirects are left); PoolManager/ProxyManager keep their own copy
+        # of the policy for the redirect hops, which the pool-level retry does not touch, so they may still follow
+        # min(redirect, total).  The property bounds the number of redirects by the policy's budget: both are within it.
+        upper = min(red, total)
+        lower = min(red, total - 1)
+        if followed > upper:
+            return _fail("%s: %d redirects followed, the policy allows %d: %r" % (where, followed, upper, peer.targets))
+        if followed < lower:
+            return _fail("%s: only %d redirects followed although %d are left in the budget: %r" % (where, followed, lower, peer.targets))
+        if front == 2 and followed != lower:
+            return _fail("%s: bare pool followed %d redirects, %d are left after the retry" % (where, followed, lower))
+        if ror and not isinstance(exc, MaxRetryError):
+            return _fail("%s: expected MaxRetryError, got %r / %r" % (where, resp, exc))
+        if not ror and (exc is not None or resp.status != status):
+            return _fail("%s: expected the last 3xx response, got %r / %r" % (where, resp, exc))
+        mark("retry then chain")
+        return True
+    finally:
+        N.uninstall()
+        E.uninstall_clock()
+
+
+def fault_dims(part):
+    return [[0, 1, 2], [0, 1, 2], [False, True], [0, 1, 2], [False, True], part["statuses"], [0, 1, 3]]
+
+
+def _fault_point(idx):
+    return N._untraced(_fault_body)(*decode_point(idx, fault_dims))
+
+
+def c05_fault(idx: int) -> bool:
+    """
+    pre: 0 <= idx < P.n
+    post: _
+    """
+    return run(_fault_point, idx)
+
+
+DIMS = {"c05_location": location_dims, "c05_chain": chain_dims, "c05_fault": fault_dims}
 
 
 def setup():
@@ -510,11 +633,15 @@ def JOBS(tier):
                               "methods": [0, 1, 3] if quick else [0, 1, 2, 3, 4]}})
     jobs.append({"func": "c05_chain", "timeout": t, "path_timeout": 90, "samples": 1,
                  "part": {"kinds": list(range(7)), "kmax": 3 if quick else 6, "layers": [0, 1], "statuses": [1, 3] if quick else [0, 1, 2, 3, 4]}})
+    part = {"statuses": [1, 3] if quick else [0, 1, 2, 3, 4]}
+    jobs.append({"func": "c05_fault", "timeout": t, "path_timeout": 90, "samples": 1, "part": part})
     return jobs
 
 
 EVIDENCE = {
-    "bounds": {"quick": "one hop (re-entry cut) x 3 front-ends (PoolManager, ProxyManager over a forwarding proxy, bare pool) x 7 policy "
+    "bounds": {"fault": "c05_fault: first attempt fails (refused connect / reset after send / 503 with forcelist), then an endless redirect "
+                        "chain: 3 front-ends x redirect flag x redirect budget 0..2 x total {0,1,3} x raise_on_redirect x statuses",
+               "quick": "one hop (re-entry cut) x 3 front-ends (PoolManager, ProxyManager over a forwarding proxy, bare pool) x 7 policy "
                         "spellings with UNBOUNDED integer budgets k,j >= 0 (plain-int spelling: k <= 4) x raise_on_redirect x 3 layers (request / constructor / both) x "
                         "redirect flag x {302,303}; follow-up request: 9 statuses x 13 Location forms x {GET,POST,HEAD} x body x 2 header "
                         "spellings (dict / HTTPHeaderDict); closed endless chains over 1-3 origins with budgets <= 3",
